@@ -130,8 +130,18 @@ func c18Settle() {
 }
 
 // open opens cur.journal and returns the diagnostics published for it once settled.
-func (w *c18World) open(text string) []protocol.Diagnostic {
-	w.uri = protocol.DocumentURI("file://" + w.root + "/cur.journal")
+func (w *c18World) open(text string) []protocol.Diagnostic { return w.openFile("cur.journal", text) }
+
+// scratch: another document, outside every include tree, that declares names of its own, is
+// opened (and analysed) first. What it declares must not leak into the verdicts on cur.journal.
+func (w *c18World) scratch(decls string) {
+	text := decls + "2024-03-01 s\n    sc:a  1 CHF\n    sc:b\n"
+	zzverif.WriteFile(w.root+"/notes/scratch.journal", text)
+	_ = w.openFile("notes/scratch.journal", text)
+}
+
+func (w *c18World) openFile(name, text string) []protocol.Diagnostic {
+	w.uri = protocol.DocumentURI("file://" + w.root + "/" + name)
 	if zzverif.Engine() {
 		_ = w.s.DidOpen(w.ctx, &protocol.DidOpenTextDocumentParams{TextDocument: protocol.TextDocumentItem{URI: w.uri, Text: text}})
 		c18Settle()
@@ -267,6 +277,9 @@ func verifC18Accounts(deep bool) {
 	w.root = root
 	w.files(cur, incDecl+"2024-01-01 i\n    inc:a  1 USD\n    inc:b\n", sibDecl)
 	w.start(ws, set)
+	if zzverif.Choice("scratch", 2) == 1 {
+		w.scratch("account " + p1 + "\naccount " + p2 + "\naccount other:acct\n")
+	}
 	got := w.open(cur)
 
 	// scope of the rule: current file, its include tree, or its workspace
@@ -336,17 +349,27 @@ func verifC18Commodities(deep bool) {
 		zzverif.Assume(costK == asrtK || costK == 1)
 	}
 	line1 := "    a:b  " + c18Amt(a, "1")
-	var used []string
-	used = append(used, a)
+	line2 := "    c:d"
+	type use struct {
+		sym  string
+		line uint32
+	}
+	used := []use{{a, 1}}
 	if costK > 0 {
 		c := c18Syms[costK-1]
 		line1 += " @ " + c18Amt(c, "2")
-		used = append(used, c)
+		used = append(used, use{c, 1})
 	}
 	if asrtK > 0 {
 		c := c18Syms[asrtK-1]
-		line1 += " = " + c18Amt(c, "3")
-		used = append(used, c)
+		if zzverif.Choice("asrt.on", 2) == 1 {
+			// assertion on the posting WITHOUT an amount
+			line2 += "  = " + c18Amt(c, "3")
+			used = append(used, use{c, 2})
+		} else {
+			line1 += " = " + c18Amt(c, "3")
+			used = append(used, use{c, 1})
+		}
 	}
 	var curDecl, incDecl, sibDecl string
 	switch place {
@@ -359,12 +382,15 @@ func verifC18Commodities(deep bool) {
 	}
 	head := curDecl + "include inc.journal\n"
 	l0 := uint32(strings.Count(head, "\n"))
-	body := "2024-01-15 x\n" + line1 + "\n    c:d\n2024-01-16 y\n    a:b  " + c18Amt(a, "5") + "\n    c:d  " + c18Amt(a, "-5") + "\n"
+	body := "2024-01-15 x\n" + line1 + "\n" + line2 + "\n2024-01-16 y\n    a:b  " + c18Amt(a, "5") + "\n    c:d  " + c18Amt(a, "-5") + "\n"
 	cur := head + body
 	set := c18Settings()
 	w := &c18World{ws: ws, root: root}
 	w.files(cur, incDecl+"2024-01-01 i\n    inc:a  1 USD\n    inc:b\n", sibDecl)
 	w.start(ws, set)
+	if zzverif.Choice("scratch", 2) == 1 {
+		w.scratch("commodity USD\ncommodity EUR\ncommodity $\n")
+	}
 	got := w.open(cur)
 	if !ws && zzverif.Known(c18ClsIncl) && place == c18Inc {
 		zzverif.Reach("kf:" + c18ClsIncl)
@@ -374,9 +400,9 @@ func verifC18Commodities(deep bool) {
 	if set.comm && place != c18None {
 		seen := map[string]bool{}
 		for _, u := range used {
-			if u != declSym && !seen[u] {
-				seen[u] = true
-				want = append(want, l0+1)
+			if u.sym != declSym && !seen[u.sym] {
+				seen[u.sym] = true
+				want = append(want, l0+u.line)
 			}
 		}
 		if a != declSym {
